@@ -4,6 +4,7 @@ from .hist_arith import HistArith
 from .hist_sat import HistSat
 from .hist_io import HistIO
 from .hist_trav import HistTrav
+from .hist_min import HistMin
 
 _ARITH_MIX = {'new': 3, 'add_gate': 5, 'gadget': 22, 'copy': 1, 'rename': 1, 'connect': 2, 'mark_output': 1,
               'into_bench': 1, 'remove_gate': 1, 'replace_inputs': 1, 'set_outputs': 1}
@@ -20,10 +21,12 @@ MIX['C11'] = {'new': 4, 'add_gate': 7, 'rename': 4, 'connect': 2, 'mark_output':
 MIX['C20'] = {'new': 4, 'add_gate': 8, 'rename': 1, 'connect': 3, 'remove_gate': 1, 'mark_output': 2, 'set_outputs': 1,
               'replace_subcircuit': 1, 'into_bench': 2, 'replace_inputs': 1, 'remove_block': 1, 'make_block': 1, 'copy': 1,
               'traverse': 22}
+for _p, _w in (('C11', 2), ('C16', 2), ('C05', 1), ('C20', 1), ('C14', 1)):
+    MIX[_p]['minimize_member'] = _w
 FAMILY.update({'tseytin': 'C05', 'circuit_sat': 'C05', 'miter': 'C13', 'pxor_member': 'C13', 'gadget': None})
 
 
-class HistAll(HistArith, HistSat, HistIO, HistTrav):
+class HistAll(HistArith, HistSat, HistIO, HistTrav, HistMin):
     def gen(self, rng, prop, tier, run_index):
         run = super().gen(rng, prop, tier, run_index)
         if prop in ('C07', 'C08', 'C09'):
